@@ -59,6 +59,20 @@ def run_one(prop, tier, repo, replay=None):
             raise AnalysisError('only %d modules parsed under %s (expected >= %d)'
                                 % (len(model.modules), repo, MIN_MODULES))
         result = mod.run(model, tier)
+        if tier == 'thorough' and not os.environ.get('SA_NO_SELFTEST'):
+            # deeper tier: also exercise the checker on its one-construct variants of the current tree
+            # (scratch copies outside /repo and /verif, removed at once); advisory only
+            try:
+                from .selftest import runner
+                os.environ['SA_NO_SELFTEST'] = '1'          # the variant runs use the quick tier anyway
+                st = runner.for_property(prop, repo)
+                result.extra['checker_selftest'] = st
+                for x in st['not_as_expected']:
+                    print('NOTE property=%s checker self-test variant not as expected: %s' % (prop, x))
+            except Exception as e:
+                result.extra['checker_selftest'] = {'error': '%s: %s' % (type(e).__name__, e)}
+            finally:
+                os.environ.pop('SA_NO_SELFTEST', None)
         if replay:
             print('replay of %s: the rule was re-run on the current tree; findings follow' % replay)
         return report.finish(result, tier, t0, level=getattr(mod, 'LEVEL', 'other'),
